@@ -25,6 +25,13 @@ Theorem C16_merge_doubles :
 Proof. repeat split; reflexivity. Qed.
 Print Assumptions C16_merge_doubles.
 
+(* ... and the two tables are one table: for every pair of operator characters, what they merge to with blanks between them
+   is what they merge to without.  (Before 638b3f3 this failed for > < against ><.) *)
+Theorem C16_blank_inside_an_operator_is_optional : forall a c n,
+  triple_at (TOp a) (TWs n) (TOp c) = double_at (TOp a) (TOp c).
+Proof. intros a c n. destruct a; destruct c; reflexivity. Qed.
+Print Assumptions C16_blank_inside_an_operator_is_optional.
+
 (* ---- letter case (proofs in Proofs/CaseFold.v) ---- *)
 From BL Require Import Mach.Func Proofs.CaseFold.
 
